@@ -5,7 +5,7 @@
    node populations, ignore lists, counts and seeds (profile "select") and through every
    Store / Ready / Migrate / timeout in the application histories. *)
 From SaoVerif Require Import Base.Prelude Base.Ints Base.Dec Model.Did Model.Types Model.Monad Model.Select Model.Node
-     Model.Storage Model.Sao Proofs.SelectFacts Proofs.SelectApp.
+     Model.Storage Model.Sao Model.Hooks Model.App Model.Spec Proofs.SelectFacts Proofs.SelectApp Proofs.Placement.
 
 (* Whatever the node population, ignore list, requested count and seed: the chosen
    providers are pairwise distinct, each is a registered node that is online, serves
@@ -58,3 +58,17 @@ Print Assumptions C15_selection_terminates.
 (* non-vacuity *)
 Example C15_nonvacuous : random_index 0 3 2 = SelOk [0; 1] /\ random_index 999 5 4 = SelOk [4; 0; 1; 2].
 Proof. split; vm_compute; reflexivity. Qed.
+
+(* the retry after a timeout, at the call site (HandleTimeoutOrder): every shard the check creates belongs to
+   the order and waits for a provider that is eligible, neither holds nor has timed out on a shard of the
+   order, and differs from the providers of the other new shards *)
+Theorem C15_timeout_new_shards_fresh : forall cx oid s s' o,
+  handle_timeout_order cx oid s = Ok tt s' -> orders s !! oid = Some o -> 0 <= cx_seed cx ->
+  0 <= shard_count s -> shard_count s + Z.of_nat (length (o_shards o)) < two64 -> fresh_above s ->
+  forall id sh', shards s' !! id = Some sh' -> shards s !! id = None ->
+    sh_order sh' = oid /\ sh_status sh' = ShardWaiting /\
+    (forall id0 sh0, In id0 (o_shards o) -> shards s !! id0 = Some sh0 -> sh_sp sh0 <> sh_sp sh') /\
+    (exists n, nodes s !! sh_sp sh' = Some n /\ eligible (pledges s) (i64 (o_size o)) (mkCand (sh_sp sh') n) = true) /\
+    (forall id2 sh2, id2 <> id -> shards s' !! id2 = Some sh2 -> shards s !! id2 = None -> sh_sp sh2 <> sh_sp sh').
+Proof. exact timeout_new_shards_fresh. Qed.
+Print Assumptions C15_timeout_new_shards_fresh.
